@@ -173,14 +173,14 @@ func abstractOf(r *rand.Rand, v cty.Value) (cty.Value, string) {
 			if gen.Chance(r, 0.7) {
 				d := big.NewFloat(float64(r.Intn(3)))
 				lo := new(big.Float).Sub(f, d)
-				inc := d.Sign() == 0 || gen.Chance(r, 0.5)
+				inc := lo.Cmp(f) == 0 || gen.Chance(r, 0.5) // (f - d == f for numbers beyond the precision)
 				b = b.NumberRangeLowerBound(cty.NumberVal(lo), inc)
 				what += "+lower"
 			}
 			if gen.Chance(r, 0.7) {
 				d := big.NewFloat(float64(r.Intn(3)))
 				hi := new(big.Float).Add(f, d)
-				inc := d.Sign() == 0 || gen.Chance(r, 0.5)
+				inc := hi.Cmp(f) == 0 || gen.Chance(r, 0.5)
 				b = b.NumberRangeUpperBound(cty.NumberVal(hi), inc)
 				what += "+upper"
 			}
@@ -511,6 +511,12 @@ func c05Report(c *core.Case, he hclsyntax.Expression, ast *gen.Node, src string,
 			switch {
 			case pcd.HasErrors() && !pad.HasErrors():
 				class = "unsound/conditional-arm-fails-only-concretely"
+			case pcd.HasErrors() && pad.HasErrors():
+				// the conditional itself evaluated in both runs, so what fails here is
+				// an unselected arm; the conditional drops its error but unifies the
+				// result type with the placeholder the failed arm left behind, which
+				// is not the same in the two runs
+				class = "unsound/conditional-type-from-failing-unselected-arm"
 			case !pcd.HasErrors() && !pad.HasErrors():
 				pa, pc = unmarked(pa), unmarked(pc)
 				okc := true
